@@ -218,6 +218,10 @@ fn method_of(m: &str) -> zip::CompressionMethod {
 }
 
 /// Archive with `n` entries written by the crate; entry `pos` ("enc") is encrypted with `pw`.
+/// Name of the encrypted entry: non-ASCII for odd positions, so that the encryption bit and the
+/// language-encoding bit are also exercised together.
+fn enc_name(pos: usize) -> &'static str { if pos % 2 == 1 { "enc-\u{e9}\u{4e2d}" } else { "enc" } }
+
 fn build_arch(pw: &[u8], m: &str, n: usize, pos: usize, data: &[u8]) -> Result<Arch, String> {
     let n = n.max(2);
     let pos = pos % n;
@@ -228,7 +232,7 @@ fn build_arch(pw: &[u8], m: &str, n: usize, pos: usize, data: &[u8]) -> Result<A
         let base = zip::write::FileOptions::default().last_modified_time(zip::DateTime::default());
         if j == pos {
             let o = base.compression_method(method_of(m)).with_deprecated_encryption(pw);
-            w.start_file("enc", o).map_err(|e| zerr_class(&e))?;
+            w.start_file(enc_name(pos), o).map_err(|e| zerr_class(&e))?;
             w.write_all(data).map_err(|e| ioerr_class(&e))?;
         } else {
             let o = base.compression_method(if j % 2 == 0 { zip::CompressionMethod::Stored } else { zip::CompressionMethod::Deflated });
@@ -626,7 +630,7 @@ impl Stream for Zc {
                         let a1 = match open_and_read(&ar.bytes, ar.pos, None) { Ok(_) => "opened".to_string(), Err(e) => e };
                         let a2 = {
                             let mut z = zip::ZipArchive::new(Cursor::new(&ar.bytes[..])).unwrap();
-                            let x = match z.by_name("enc") { Ok(_) => "opened".to_string(), Err(e) => zerr_class(&e) };
+                            let x = match z.by_name(enc_name(ar.pos)) { Ok(_) => "opened".to_string(), Err(e) => zerr_class(&e) };
                             x
                         };
                         if a1 == a2 { a1 } else { format!("mismatch({a1}|{a2})") }
@@ -767,7 +771,7 @@ impl Stream for Zc {
                     fail("observation: 16 plaintext bytes of the encrypted entry appear verbatim in the archive".into());
                 }
                 if let Some(tool) = a.get("x") {
-                    match foreign_read(tool, &ar.bytes, "enc", &pw) {
+                    match foreign_read(tool, &ar.bytes, enc_name(ar.pos), &pw) {
                         Ok(d) if d == data => {}
                         Ok(_) => fail(format!("{tool} decrypts the crate's entry to different bytes")),
                         Err(e) => fail(format!("{tool} cannot read the crate's encrypted entry: {e}")),
